@@ -27,7 +27,7 @@ Ltac brk H :=
 (* the Venom opcodes whose code is a straight-line snippet that consumes the operands and pushes the results *)
 Definition covered (o : V.opc) : bool :=
   match o with
-  | V.O_dalloca | V.O_getfmp | V.O_setfmp | V.O_iload | V.O_istore | V.O_log | V.O_nop | V.O_byte | V.O_env _
+  | V.O_dalloca | V.O_getfmp | V.O_setfmp | V.O_iload | V.O_istore | V.O_log | V.O_nop | V.O_env _
   | V.O_call | V.O_staticcall | V.O_delegatecall | V.O_create | V.O_create2 | V.O_balance | V.O_selfbalance
   | V.O_extcodesize | V.O_extcodehash | V.O_extcodecopy
   | V.O_phi | V.O_jmp | V.O_jnz | V.O_djmp | V.O_assert | V.O_assert_unreachable | V.O_return | V.O_revert | V.O_stop
